@@ -692,7 +692,10 @@ def sched_check(PROP, THEOREMS, tier, seed, monitors, nscen_quick=600, nscen_tho
                 extra_modules=("Model.All",), note=None, replay=None, scen_gen=None, probes=None):
     run = Run(PROP, tier, seed, "proof")
     rng = random.Random(seed)
-    info, problems = proof_gate(PROP, THEOREMS, extra_modules=list(extra_modules), thorough=(tier == "thorough"))
+    if THEOREMS and isinstance(THEOREMS[0], str):
+        info, problems = proof_gate_multi(THEOREMS, thorough=(tier == "thorough"))
+    else:
+        info, problems = proof_gate(PROP, THEOREMS, extra_modules=list(extra_modules), thorough=(tier == "thorough"))
     for p in problems:
         run.tie("proof gate", p)
     drv = build_driver()
